@@ -98,7 +98,8 @@ def path(ctx, cfg):
         H.add_edge(a, b)
         H.edges[a, b][NetworkNames.TOPOLOGY] = d["topology"]
         H.edges[a, b][NetworkNames.MOTIF_IDS] = 0
-    names = NAMES[: cfg["T"]]
+    names = ["".join(list(t)) for t in NAMES[: cfg["T"]]]  # equal strings, but not the objects stored on the edges
+    assert all(a is not b for a, b in zip(names, NAMES))
     desc = f"edges={list(zip(edges, tops))} annotations={ann}"
 
     def run():
